@@ -113,10 +113,14 @@ func (o *OracleC05) After(x *Exec, op *Op, res *Res) {
 		nvs, ok2 := s.Vals[op.V].ValShares[op.Denom]
 		ntds, ok3 := s.Vals[op.V].DelShares[op.Denom]
 		if okA && ok1 && pvs.IsPositive() && (!ok2 || nvs.IsZero()) && ok3 && ntds.IsPositive() && a.TotalTokens.IsPositive() && a.TotalValidatorShares.IsPositive() {
-			// share of the asset the validator should be left with: (vs*T - amt*S) / (S*(T - amt))
+			// share of the asset the validator should be left with: (vs*T - amt*S) / (S*(T - amt)) after an
+			// undelegation, (vs*T - amt*S) / (S*T) after a redelegation
 			S, T, amt := decRat(a.TotalValidatorShares), intRat(a.TotalTokens), new(big.Rat).SetInt(bigOf(op.Amt))
 			num := new(big.Rat).Sub(new(big.Rat).Mul(decRat(pvs), T), new(big.Rat).Mul(amt, S))
 			den := new(big.Rat).Mul(S, new(big.Rat).Sub(T, amt))
+			if op.K == KRedelegate {
+				den = new(big.Rat).Mul(S, T) // a redelegation leaves the asset's totals unchanged
+			}
 			if den.Sign() > 0 && num.Sign() > 0 && new(big.Rat).Quo(num, den).Cmp(big.NewRat(1, 100_000_000_000_000_000)) >= 0 {
 				if o.wiped == nil {
 					o.wiped = map[string]bool{}
@@ -337,6 +341,18 @@ func (o *OracleC05) exitSearch(x *Exec, s *Snap, d DelSnap, bal math.Int, msg st
 				}
 			}
 		}
+	}
+	// The 18-digit round trip tokens -> shares -> tokens loses (or gains) a relative amount e that
+	// depends on how the validator's share of the asset rounds; only requests with X*e below the
+	// module's 0.01 margin pass. Halve the amount until one is accepted: a delegator who can
+	// withdraw in chunks is not locked in (the refusal of the full balance is F-C20c).
+	for c := ratFloor(new(big.Rat).Mul(v, big.NewRat(1, 2))); c.Sign() > 0; c = new(big.Int).Rsh(c, 1) {
+		ok, m := undel(parseInt(c.String()))
+		if ok {
+			x.Label("c05:exit-only-in-small-chunks")
+			return true, ""
+		}
+		last = m
 	}
 	// the rounding of shares/total at 18 digits makes acceptance of a given amount a matter of
 	// which way that rounding falls; amounts around a tenth of the position pass roughly
